@@ -426,17 +426,15 @@ func c06Model(sc c06Scenario) c06Expect {
 				continue
 			}
 			if !met[i] {
-				// first met at this destination block: connection, sender and earlier recipients are replayed
+				// first met at this destination block: connection and sender are replayed
 				for _, f := range []bool{c.Conn, c.Sender} {
 					rj, q := verdict(c, f)
 					must = must || rj
 					quar = quar || q
 				}
-				for _, prev := range acceptedSoFar {
-					rj, q := verdict(c, c06Has(c.Rcpt, prev))
-					may = may || rj
-					quar = quar || q
-				}
+				// earlier recipients were handled by blocks the check is not referenced in (otherwise it would
+				// have been met already): they are outside its scope and it does not see them
+				_ = acceptedSoFar
 			}
 			rj, q := verdict(c, c06Has(c.Rcpt, r))
 			must = must || rj
@@ -631,14 +629,30 @@ func c06CallLog(sc c06Scenario, got c06Outcome, accepted bool) (vs []ev.V) {
 			break
 		}
 	}
-	if !accepted {
-		return nil
-	}
-	// finally accepted: every applicable check saw conn, sender, body exactly once and each in-scope recipient once
 	srcPl := plS0
 	if sc.Sender == 1 {
 		srcPl = plS1
 	}
+	// a check sees only the recipients handled in its scope (documented flow: the checks of the selected
+	// destination block are executed for that recipient)
+	for _, c := range got.Calls {
+		if c.Stage != "rcpt" {
+			continue
+		}
+		spec := sc.Checks[c.Check]
+		if c06Has(spec.Places, plGlobal) || c06Has(spec.Places, srcPl) {
+			continue
+		}
+		for _, r := range sc.Rcpts {
+			if c06Rcpts[r] == c.Arg && !c06Has(spec.Places, c06DestPlace(sc.Sender, r)) {
+				return []ev.V{ev.Vf("calls:rcpt-outside-scope", "check c%d (referenced at %v only) was run for recipient %s, which is handled by another block; calls %v", c.Check, spec.Places, c.Arg, got.Calls)}
+			}
+		}
+	}
+	if !accepted {
+		return nil
+	}
+	// finally accepted: every applicable check saw conn, sender, body exactly once and each in-scope recipient once
 	perCheckStates := map[int][]int{}
 	for st, c := range stateCheck {
 		perCheckStates[c] = append(perCheckStates[c], st)
